@@ -145,7 +145,7 @@ inductive Req where
   | group (add : Bool) (flat : List Int)
   | stopCoupling
   | raw (n : Int)
-  | block | stop | selfEnd | refresh
+  | block | stop | selfEnd | refresh | start
 deriving Repr
 
 /-- reply seen by the caller: 0 ok, 1 error -/
@@ -206,6 +206,13 @@ def reqStep (s : RS) : Req → RS × Ret
   | .selfEnd =>
     if s.active then ({ s with active := false, wActive := false, wPaused := false, writers := false }, 0) else (s, 1)
   | .refresh => ({ s with flag := s.flag && s.active }, 0)
+  -- `SourceControl.Start` on the same source: refused while it runs; otherwise a new run with the record lengths
+  -- the RPC layer has on record (= the lengths of the last ACCEPTED request: a refused one changed nothing),
+  -- fresh processors (no projectors, default triggers), nothing being written
+  | .start =>
+    if s.active then (s, 1)
+    else ({ s with active := true, flag := true, proj := s.proj.map fun _ => false, writers := false,
+                   wActive := false, wPaused := false }, 0)   -- (a raw-block archive in progress survives: it lives in the source)
 
 def runReqs (s : RS) : List Req → RS × List Ret
   | [] => (s, [])
@@ -309,6 +316,7 @@ def parseReq : P Req := do
   | "K" => pure .stop
   | "Z" => pure .selfEnd
   | "F" => pure .refresh
+  | "A" => pure .start
   | _ => fail s!"bad request {t}"
 
 inductive Kind where
@@ -485,7 +493,7 @@ def runLine (ts : List String) : Verdict :=
             else if (r.probe != 0) != s.active then .diff s!"source active: impl probe {r.probe} model {s.active}"
             else match judgeSkeleton "hist" r with
               | .ok tags =>
-                let rej := (model.zip reqs).any fun (x, q) => x == 1 && (match q with | .block | .stop | .selfEnd | .refresh => false | _ => true)
+                let rej := (model.zip reqs).any fun (x, q) => x == 1 && (match q with | .block | .stop | .selfEnd | .refresh | .start => false | _ => true)
                 .ok ((tags ++ (if rej then ["rejected"] else []) ++ (if !s.flag || !s.active then ["afterEnd"] else [])).eraseDups)
               | v => v)
     | .pair nchan reqs, .run r =>
